@@ -78,3 +78,20 @@ def model_codes(run, label_lists, part="codes"):
     run.add_tlc(res, part)
     codes = {j["id"] - 1: j["code"] for j in res["json"] if isinstance(j, dict) and "code" in j}
     return [codes[k] for k in range(len(label_lists))]
+
+
+def prove(run, module, tier, what, selftests=()):
+    """TLAPS proof of a spec module (unbounded counterpart of what TLC checks in bounds).  selftests: [(file, old, new)] definition
+    changes that must make the proof fail (thorough tier)."""
+    from harness import tlaps
+    pr = tlaps.prove(module)
+    part = {"tlaps_obligations": pr["obligations"], "tlaps_failed": pr["failed"], "tlaps_wall_s": pr["wall_s"]}
+    run.cov.setdefault("parts", {})["proofs_" + module] = part
+    if not pr["ok"]:
+        run.violation("proof:" + module, "TLAPS no longer proves %s.tla (%d of %d obligations failed): %s" % (module, pr["failed"], pr["obligations"], what))
+    if tier == "thorough" and selftests:
+        for f, old, new in selftests:
+            if tlaps.prove(module, patch={f: (old, new)})["ok"]:
+                raise RuntimeError("self-test: TLAPS still proves %s with the definition changed (%s -> %s)" % (module, old, new))
+        part["selftest_changed_definitions_rejected"] = len(selftests)
+    return pr
